@@ -239,6 +239,8 @@ def build_class(accs, base='Module'):
             kw['constant'] = conc(acc['const'])
         else:
             kw['default'] = conc(acc['init'])
+        if acc.get('unit'):
+            kw['unit'] = acc['unit']          # '$' stands for the unit of the module's value
         bbody[attr] = M.Parameter('p', build_dt(acc['dt']), **kw)
         if acc['drv'] != 'absent':
             bbody['write_' + attr] = _mk_write(attr, acc)
